@@ -323,7 +323,8 @@ def run_generators(ck: Check, tag: str, which: str, sample_fn):
         for cfg, kw, exh in generator_plan(ck, tag):
             t0 = time.time()
             res = ck.tlc(MODULE, cfg, timeout=3000, coverage=False, **kw)
-            ck.extra.setdefault("phase_wall_s", {})[cfg] = round(time.time() - t0, 1)
+            ck.extra.setdefault("phase_wall_s", {})[cfg + ("" if exh else " seed=%s" % kw.get("seed"))] = \
+                round(time.time() - t0, 1)
             if not res.ok:
                 raise Machinery("generator %s failed: %s\n%s" % (cfg, res.violated, res.tail))
             if not res.records:
@@ -346,13 +347,14 @@ def run_generators(ck: Check, tag: str, which: str, sample_fn):
 
 # ----------------------------------------------------------------------------- entry points
 def run(ck: Check):
-    ck.rule = ("trees are enumerated by TLC from spec/ArchTree.tla (every well-formed tree with <= 4 nodes over all "
-               "six kinds and fanouts {1,2,3}; every tree shape with 5..7 nodes over Memory/Compute/Fork/Hierarchical; "
-               "thorough: also all 5-node trees over the full alphabet and all 8-node shapes) or drawn with -simulate "
-               "(6..12 nodes, depth <= 4); expected path per compute = ArchTree!Path evaluated by TLC; each tree is "
-               "built from the real classes and every compute is flattened. Non-trivial = some compute has a leaf or "
-               "another compute before it in the tree that is not on its path (a Fork not containing it, or a sibling "
-               "compute); distinct by tree.")
+    ck.rule = ("trees are enumerated by TLC from spec/ArchTree.tla (quick: every well-formed tree with <= 4 nodes over "
+               "all six kinds with fanouts {1,2} ({1,3} on Compute), every 5-node tree shape over Memory/Compute/Fork/"
+               "Hierarchical; thorough: <= 4 nodes with fanouts {1,2,3}, every 5-node tree over all six kinds, every "
+               "shape with 5, 6 and 7 nodes) or drawn with -simulate (6..12 nodes, depth <= 4; counts per generator "
+               "under 'generators'); expected path per compute = ArchTree!Path evaluated by TLC; each tree is built "
+               "from the real classes and every compute is flattened, by name and with the argument-less call. "
+               "Non-trivial = some compute has a leaf or another compute before it in the tree that is not on its "
+               "path (inside a Fork that does not contain it, or a sibling compute); distinct by tree.")
     ck.trusted += ["structural translation preorder (kind, fanout, depth) list -> nested Arch objects "
                    "(checks/c25.py build_arch_nodes)"]
     ck.assumptions += ["well-formed trees only: no empty Fork/Hierarchical, every Fork contains a Compute, every "
